@@ -11,6 +11,7 @@ import (
 	"math"
 	"runtime"
 	"sync"
+	"time"
 
 	"github.com/pinealctx/neptune/syncx/pipe"
 	pasync "github.com/pinealctx/neptune/syncx/pipe/async"
@@ -85,16 +86,20 @@ const (
 	KRunDeleg = "runner-delegate"
 	KRunProc  = "runner-proc"
 	KProcChan = "procchan"
+	// KRunMix: one runner queue used through all three entry points (the form of a call is its sequence number mod 3)
+	KRunMix = "runner-mixed"
 )
 
-var kinds = []string{KLine, KMLine, KMLine, KRunCall, KRunDeleg, KRunProc, KProcChan}
+var kinds = []string{KLine, KMLine, KMLine, KRunCall, KRunDeleg, KRunProc, KRunMix, KProcChan}
 
 type callee func(ctx context.Context, laneArg int) (int, error)
 
 type executor struct {
-	kind   string
-	slots  int
-	call   func(ctx context.Context, hash int, fn callee) (interface{}, error)
+	kind  string
+	slots int
+	// seq numbers the calls of a case (it is the argument of the reflective call and chooses the form on a mixed
+	// runner); reuse: the caller re-uses the CallCtx object of an earlier call whose caller has returned (line, mline)
+	call   func(ctx context.Context, hash int, fn callee, seq int, reuse bool) (interface{}, error)
 	stop   func()
 	laneOf func(hash int) int
 	// waitStopped blocks until the executor reports that its lane goroutines are gone (WaitGroup / WaitStop)
@@ -140,10 +145,20 @@ func newExecutor(kind string, slots, qsize int, lateRun bool) *executor {
 		wg := &sync.WaitGroup{}
 		l := line.NewLine(wg, line.WithQSize(qsize), line.WithName("verif"))
 		e.run = l.Run
-		e.call = func(ctx context.Context, _ int, fn callee) (interface{}, error) {
-			return l.AsyncCall(ctx, line.NewCallCtx(func(ctx context.Context, req interface{}) (interface{}, error) {
+		var sharedL *line.CallCtx
+		e.call = func(ctx context.Context, _ int, fn callee, _ int, reuse bool) (interface{}, error) {
+			cc := line.NewCallCtx(func(ctx context.Context, req interface{}) (interface{}, error) {
 				return wrap(fn)(ctx)
-			}, nil))
+			}, nil)
+			if reuse && sharedL != nil {
+				// the caller fills the object of its earlier call again (its fields are public) - what was accepted then
+				// must not change with it
+				sharedL.Call, sharedL.Param = cc.Call, cc.Param
+				cc = sharedL
+			} else if reuse {
+				sharedL = cc
+			}
+			return l.AsyncCall(ctx, cc)
 		}
 		e.stop = l.Stop
 		e.waitStopped = wg.Wait
@@ -152,35 +167,50 @@ func newExecutor(kind string, slots, qsize int, lateRun bool) *executor {
 		e.run = ml.Run
 		e.slots = slots
 		e.laneOf = ml.IndexOf
-		e.call = func(ctx context.Context, hash int, fn callee) (interface{}, error) {
-			return ml.AsyncCall(ctx, mline.NewCallCtx(hash, func(ctx context.Context, sIndex int, req interface{}) (interface{}, error) {
+		var sharedM *mline.CallCtx
+		e.call = func(ctx context.Context, hash int, fn callee, _ int, reuse bool) (interface{}, error) {
+			cc := mline.NewCallCtx(hash, func(ctx context.Context, sIndex int, req interface{}) (interface{}, error) {
 				v, err := fn(ctx, sIndex)
 				if err != nil {
 					return nil, err
 				}
 				return v, nil
-			}, nil))
+			}, nil)
+			if reuse && sharedM != nil {
+				*sharedM = *cc
+				cc = sharedM
+			} else if reuse {
+				sharedM = cc
+			}
+			return ml.AsyncCall(ctx, cc)
 		}
 		e.stop = ml.Stop
 		e.waitStopped = func() { _ = ml.WaitStop(context.Background()) }
-	case KRunCall, KRunDeleg, KRunProc:
+	case KRunCall, KRunDeleg, KRunProc, KRunMix:
 		rwg := &sync.WaitGroup{}
 		r := pasync.NewRunnerQ(pasync.WithQSize(qsize), pasync.WithName("verif"), pasync.WithWaitGroup(rwg))
 		e.run = r.Run
 		e.waitStopped = func() { r.WaitStop(); rwg.Wait() }
-		switch kind {
-		case KRunCall:
-			e.call = func(ctx context.Context, _ int, fn callee) (interface{}, error) {
-				return r.AsyncCall(func(ctx context.Context, arg int) (int, error) { return fn(ctx, -1) }, ctx, 0)
+		e.call = func(ctx context.Context, _ int, fn callee, seq int, _ bool) (interface{}, error) {
+			form := map[string]int{KRunCall: 0, KRunDeleg: 1, KRunProc: 2}[kind]
+			if kind == KRunMix {
+				form = seq % 3
 			}
-		case KRunDeleg:
-			e.call = func(ctx context.Context, _ int, fn callee) (interface{}, error) {
+			switch form {
+			case 0:
+				// the reflective call carries an argument: the callee must be handed exactly the one of its own call
+				want := 1000 + seq
+				return r.AsyncCall(func(ctx context.Context, arg int) (int, error) {
+					v, err := fn(ctx, -1)
+					if arg != want {
+						return -1000000 - arg, err
+					}
+					return v, err
+				}, ctx, want)
+			case 1:
 				return r.AsyncDelegate(ctx, wrap(fn))
 			}
-		default:
-			e.call = func(ctx context.Context, _ int, fn callee) (interface{}, error) {
-				return r.AsyncProc(ctx, procFn(wrap(fn)))
-			}
+			return r.AsyncProc(ctx, procFn(wrap(fn)))
 		}
 		e.stop = r.Stop
 	case KProcChan:
@@ -188,7 +218,7 @@ func newExecutor(kind string, slots, qsize int, lateRun bool) *executor {
 		p := pasync.NewProcChan(pasync.WithQSize(qsize), pasync.WithName("verif"), pasync.WithWaitGroup(pwg))
 		e.run = p.Run
 		e.waitStopped = func() { p.WaitStop(); pwg.Wait() }
-		e.call = func(ctx context.Context, _ int, fn callee) (interface{}, error) {
+		e.call = func(ctx context.Context, _ int, fn callee, _ int, _ bool) (interface{}, error) {
 			return p.AsyncProc(ctx, procFn(wrap(fn)))
 		}
 		e.stop = p.Stop
@@ -239,6 +269,8 @@ type Step struct {
 	// channel, as it must - once the harness has let the lane have its turn: the caller is held in front of its
 	// wait while the executor already deals with the call
 	LateDone bool `json:"late_done,omitempty"`
+	// Deadline (with PreCancel, not LateDone): the context is over because its deadline passed (Err() is DeadlineExceeded)
+	Deadline bool `json:"deadline,omitempty"`
 	Target   int  `json:"target,omitempty"` // open / cancel: index of the call (in issue order)
 }
 
@@ -261,13 +293,20 @@ type CaseCtl struct {
 	// LateRun: the executor's Run is not called when it is built but by a "run" step (or, if there is none, at the
 	// start of the epilogue): calls are accepted - and Stop may be called - before the lanes run
 	LateRun bool `json:"late_run,omitempty"`
+	// ReuseCtx (line, mline): a caller whose earlier call has returned to it (e.g. through its context) fills the same
+	// CallCtx object again for its next call
+	ReuseCtx bool `json:"reuse_ctx,omitempty"`
 }
 
 func GenCtl(t *rapid.T) CaseCtl {
 	c := CaseCtl{Kind: rapid.SampledFrom(kinds).Draw(t, "kind")}
 	c.Slots = rapid.SampledFrom([]int{1, 2, 3, 7}).Draw(t, "slots")
+	if c.Kind == KMLine && rapid.IntRange(0, 19).Draw(t, "manylanes") == 0 {
+		c.Slots = rapid.SampledFrom([]int{257, 300, 509}).Draw(t, "slotsmany") // 509 is the default lane count
+	}
 	c.QSize = rapid.SampledFrom([]int{0, 0, 1, 2, 8}).Draw(t, "qsize")
-	hashes := []int{0, 1, c.Slots, -1, -c.Slots, math.MinInt, math.MaxInt, 5}
+	c.ReuseCtx = (c.Kind == KLine || c.Kind == KMLine) && rapid.IntRange(0, 3).Draw(t, "reusectx") == 0
+	hashes := []int{0, 1, c.Slots, -1, -c.Slots, math.MinInt, math.MaxInt, 5, c.Slots - 1, 256, 299, -300}
 	ncalls := 0
 	var gates, live []int
 	stopped := false
@@ -293,13 +332,14 @@ func GenCtl(t *rapid.T) CaseCtl {
 				st.Hash = 0
 			}
 			// the first call is a gate more often than not: it occupies the lane so that later calls queue up
-			w := []string{"ok", "ok", "err", "gate", "ctx"}
+			w := []string{"ok", "ok", "err", "gate", "ctx", "dlerr"}
 			if ncalls == 0 {
 				w = []string{"gate", "gate", "gate", "ok", "ctx"}
 			}
 			st.Behave = rapid.SampledFrom(w).Draw(t, "behave")
 			st.PreCancel = rapid.IntRange(0, 9).Draw(t, "pre") == 0
 			st.LateDone = st.PreCancel && rapid.Bool().Draw(t, "latedone")
+			st.Deadline = st.PreCancel && !st.LateDone && rapid.Bool().Draw(t, "deadline")
 			if st.Behave == "gate" {
 				gates = append(gates, ncalls)
 			}
@@ -327,6 +367,11 @@ func GenCtl(t *rapid.T) CaseCtl {
 			at := rapid.IntRange(0, len(c.Steps)).Draw(t, "runat")
 			c.Steps = append(c.Steps[:at:at], append([]Step{{Op: "run"}}, c.Steps[at:]...)...)
 		}
+	}
+	// Run called once more, anywhere (also while calls are executing or queued)
+	if rapid.IntRange(0, 5).Draw(t, "runagain") == 0 {
+		at := rapid.IntRange(0, len(c.Steps)).Draw(t, "runagainat")
+		c.Steps = append(c.Steps[:at:at], append([]Step{{Op: "run"}}, c.Steps[at:]...)...)
 	}
 	return c
 }
@@ -482,7 +527,7 @@ func judge(res *vkit.Result, c CaseCtl, ex *executor, calls []*callRun, log *evl
 		switch {
 		case cl.err == nil:
 			v, ok := cl.res.(int)
-			if !ok || v != value(i) || cl.behave == "err" || cl.behave == "ctx" {
+			if !ok || v != value(i) || cl.behave == "err" || cl.behave == "ctx" || cl.behave == "dlerr" {
 				res.Failf("result-routing", "%s: call %d (%s) returned (%v, nil), want its own result %d", what, i, cl.behave, cl.res, value(i))
 				return false
 			}
@@ -500,9 +545,16 @@ func judge(res *vkit.Result, c CaseCtl, ex *executor, calls []*callRun, log *evl
 				res.Failf("spurious-full", "%s: call %d was refused as full on an unbounded queue", what, i)
 				return false
 			}
-		case errors.Is(cl.err, context.Canceled):
+		case cl.behave == "dlerr" && cl.err == context.DeadlineExceeded && ended[i]:
+			// the callee's own error (a context error of an inner operation), handed through
+		case errors.Is(cl.err, context.Canceled) || errors.Is(cl.err, context.DeadlineExceeded):
 			if !cl.cancelled {
 				res.Failf("result-routing", "%s: call %d returned a context error but its context was never cancelled", what, i)
+				return false
+			}
+			// "its own context's error": exactly what its context reports
+			if own := cl.ctx.Err(); own != nil && cl.err != own && !(cl.behave == "ctx" || cl.behave == "dlerr") {
+				res.Failf("result-routing", "%s: call %d returned the context error %v, its own context reports %v", what, i, cl.err, own)
 				return false
 			}
 		case cl.err == cl.ownErr:
@@ -516,7 +568,7 @@ func judge(res *vkit.Result, c CaseCtl, ex *executor, calls []*callRun, log *evl
 		}
 		// after Stop has returned no new call is accepted
 		if cl.afterStop {
-			isCtxErr := cl.err != nil && errors.Is(cl.err, context.Canceled) && cl.cancelledBeforeIssue
+			isCtxErr := cl.err != nil && (errors.Is(cl.err, context.Canceled) || errors.Is(cl.err, context.DeadlineExceeded)) && cl.cancelledBeforeIssue
 			if !closed && !(c.Kind == KProcChan && isCtxErr) {
 				res.Failf("accepted-after-stop", "%s: call %d was issued after Stop returned but was not refused as closed (got %v, %v)", what, i, cl.res, cl.err)
 				return false
@@ -532,7 +584,7 @@ func judge(res *vkit.Result, c CaseCtl, ex *executor, calls []*callRun, log *evl
 
 func ExecCtl(c CaseCtl) *vkit.Result {
 	res := &vkit.Result{}
-	if c.Slots < 1 || c.Slots > 64 || c.QSize < 0 || c.QSize > 1024 {
+	if c.Slots < 1 || c.Slots > 1024 || c.QSize < 0 || c.QSize > 1024 {
 		res.Skip("malformed-config")
 		return res
 	}
@@ -546,6 +598,7 @@ func ExecCtl(c CaseCtl) *vkit.Result {
 	}
 	log := &evlog{}
 	var calls []*callRun
+	var lastUser *callRun // ReuseCtx: the call that used the shared CallCtx object last
 	stopped := false
 	queuedBehindGate := 0
 	defer func() {
@@ -574,7 +627,11 @@ func ExecCtl(c CaseCtl) *vkit.Result {
 			}
 			cl.ctx, cl.cancel = context.WithCancel(context.Background())
 			var lateRelease chan struct{}
-			if st.PreCancel {
+			if st.PreCancel && st.Deadline && !st.LateDone {
+				cl.ctx, cl.cancel = context.WithDeadline(context.Background(), time.Unix(1, 0)) // long past: no timer
+				cl.cancelled, cl.cancelledBeforeIssue = true, true
+				res.Class("expired-deadline-before-enqueue")
+			} else if st.PreCancel {
 				cl.cancel()
 				cl.cancelled, cl.cancelledBeforeIssue = true, true
 				res.Class("cancelled-before-enqueue")
@@ -609,10 +666,25 @@ func ExecCtl(c CaseCtl) *vkit.Result {
 				case "ctx":
 					<-ctx.Done()
 					return 0, ctx.Err()
+				case "dlerr":
+					// the callee fails with a context error of its own (an inner operation timed out) while the
+					// caller's context may be alive: the caller must get exactly this error
+					return 0, context.DeadlineExceeded
 				}
 				return value(i), nil
 			}
-			cl.op = sched.Go(fmt.Sprintf("caller-%d", i), func() { cl.res, cl.err = ex.call(cl.ctx, hash, fn) })
+			reuse := false
+			if c.ReuseCtx {
+				// the shared CallCtx object may be filled again once the caller that used it last has returned
+				reuse = lastUser == nil || lastUser.op.Done()
+				if reuse {
+					if lastUser != nil {
+						res.Class("call-context-object-reused")
+					}
+					lastUser = cl
+				}
+			}
+			cl.op = sched.Go(fmt.Sprintf("caller-%d", i), func() { cl.res, cl.err = ex.call(cl.ctx, hash, fn, i, reuse) })
 			if lateRelease != nil {
 				// whoever asks this context for its Done channel is held until the executor has had its turn
 				sched.MustQuiesce()
@@ -620,8 +692,10 @@ func ExecCtl(c CaseCtl) *vkit.Result {
 			}
 		case "run":
 			if ex.started {
-				res.Skip("run-of-a-running-executor")
-				continue
+				// a second Run must not put a second consumer on a lane
+				res.Class("second-run")
+				ex.run()
+				break
 			}
 			if stopped {
 				res.Class("run-after-stop")
@@ -826,6 +900,9 @@ type CaseStress struct {
 	Procs   int            `json:"procs"`
 	Callers [][]StressCall `json:"callers"`
 	StopAt  int            `json:"stop_at"` // Stop after this many calls have been issued overall (-1: only at the end)
+	// Twin: two executors of the kind work at the same time, the callers alternate between them (state that a package
+	// shares between its executors is then contended)
+	Twin bool `json:"twin,omitempty"`
 }
 
 func GenStress(t *rapid.T) CaseStress {
@@ -849,6 +926,7 @@ func GenStress(t *rapid.T) CaseStress {
 		c.Callers = append(c.Callers, prog)
 	}
 	c.StopAt = rapid.IntRange(-1, total).Draw(t, "stopat")
+	c.Twin = rapid.IntRange(0, 2).Draw(t, "twin") == 0
 	return c
 }
 
@@ -868,11 +946,18 @@ func ExecStress(c CaseStress) *vkit.Result {
 		return res
 	}
 	defer ex.stop()
+	exs := []*executor{ex}
+	if c.Twin {
+		ex2 := newExecutor(c.Kind, c.Slots, c.QSize, false)
+		defer ex2.stop()
+		exs = append(exs, ex2)
+		res.Class("two-executors-at-once")
+	}
 	var (
 		mu      sync.Mutex
 		problem string
 		issued  int
-		inLane  = make([]int, ex.slots)
+		inLane  = make([]int, len(exs)*ex.slots)
 		execs   = map[int]int{}
 		okCalls int
 	)
@@ -885,7 +970,14 @@ func ExecStress(c CaseStress) *vkit.Result {
 	}
 	stopCh := make(chan struct{})
 	var stopOnce sync.Once
-	doStop := func() { stopOnce.Do(func() { ex.stop(); close(stopCh) }) }
+	doStop := func() {
+		stopOnce.Do(func() {
+			for _, e := range exs {
+				e.stop()
+			}
+			close(stopCh)
+		})
+	}
 	start := make(chan struct{})
 	for g, prog := range c.Callers {
 		g, prog := g, prog
@@ -897,11 +989,14 @@ func ExecStress(c CaseStress) *vkit.Result {
 				if c.Kind != KMLine {
 					hash = 0
 				}
+				ex := exs[g%len(exs)]
 				lane := ex.laneOf(hash)
 				if lane < 0 || lane >= ex.slots {
 					note("IndexOf(%d) = %d outside [0,%d)", hash, lane, ex.slots)
 					return
 				}
+				laneArgWant := lane
+				lane += (g % len(exs)) * ex.slots // bookkeeping slot of this executor's lane
 				ctx, cancel := context.WithCancel(context.Background())
 				ownErr := fmt.Errorf("own error %d", id)
 				mu.Lock()
@@ -929,8 +1024,8 @@ func ExecStress(c CaseStress) *vkit.Result {
 					if bad {
 						note("call %d entered lane %d while another call was running there", id, lane)
 					}
-					if c.Kind == KMLine && laneArg != lane {
-						note("call %d with hash %d got lane index %d, IndexOf says %d", id, hash, laneArg, lane)
+					if c.Kind == KMLine && laneArg != laneArgWant {
+						note("call %d with hash %d got lane index %d, IndexOf says %d", id, hash, laneArg, laneArgWant)
 					}
 					for s := 0; s < sc.Spin; s++ {
 						runtime.Gosched()
@@ -942,7 +1037,7 @@ func ExecStress(c CaseStress) *vkit.Result {
 						return 0, ownErr
 					}
 					return value(id), nil
-				})
+				}, id, false)
 				cancel()
 				closed, full := false, false
 				if err != nil {
